@@ -294,8 +294,18 @@ ATTR_TRIAGE: Dict[Tuple[str, str, str], str] = {
 def _fresh_locals(f: Func) -> Set[str]:
     """Names bound in f to a freshly constructed object (call result / nested def)."""
     out: Set[str] = set()
+    # a call THROUGH a function-valued parameter (of f or of an enclosing function: `fwd`, a callback)
+    # may hand its argument straight back — forward_identity's default `fwd` is the identity — so its
+    # result is not a fresh object
+    fn_params: Set[str] = set()
+    g = f
+    while g is not None:
+        fn_params |= set(g.params())
+        g = g.outer
     for n in f.body_nodes():
         if isinstance(n, ast.Assign) and isinstance(n.value, ast.Call):
+            if isinstance(n.value.func, ast.Name) and n.value.func.id in fn_params:
+                continue
             for t in n.targets:
                 if isinstance(t, ast.Name):
                     out.add(t.id)
